@@ -43,6 +43,7 @@ struct Desc {   // the simulator's own catalogue entry for a client / a saved fo
   uint32_t zoneId = 0;
   int16_t stdMin = 0, dstMin = 0;
 };
+static bool sumFits(int a, int b) { int s = a + b; return s >= -32768 && s <= 32767; }
 static bool sameDesc(const Desc& a, const Desc& b) {
   if (a.kind != b.kind) return false;
   if (a.kind == K_ERROR) return true;
@@ -395,6 +396,7 @@ class TzDevice {
   Client clients[kMaxClients];
   SavedForm store[kMaxStore];   // durable: survives REBOOT
   Query lastQ;
+  char nameBuf[96];             // the device's one console line buffer (zone names typed by the user)
   bool sawNontrivial = false;
   std::vector<std::pair<int, uint64_t> > freshLog;   // (op index, hash of the fresh oracle's answer): pristine-process comparison
   unsigned questionStride = 1, questionCounter = 0, questionsChecked = 0;   // pristine side, batch mode: a sample of the questions
@@ -863,19 +865,41 @@ void TzDevice::exec(const std::vector<std::string>& t, int opIndex, Verdict& v, 
       }
       else { c.d.kind = ext ? K_XMGR : K_BMGR; c.d.zi = zi; c.d.zoneId = data.zoneId; c.d.zone = (int)z; c.restored = true; }
     } else if (how == "bname" || how == "xname") {
-      // device profile only: creation by NAME. Which zone a name maps to is C10's business and is not judged
-      // here; under C09 the call must return (no hang, no out-of-bounds read) for present and absent names alike.
+      // Creation by NAME, the way a device does it for a zone typed at its console: the name arrives in the ONE line
+      // buffer the device has (overwritten by the next line), or in a heap block of exactly its size that is freed
+      // right after the call (a manager that keeps the caller's pointer reads freed memory: ASan). Whether absent or
+      // misspelt names are rejected is C10's business and is not judged; the call must return (C09). A name the
+      // manager's registry DOES contain denotes that zone, whatever was looked up before: the client is catalogued
+      // from the name by the simulator's own search, so that C08's fresh-zone comparison is against the named zone.
       bool ext = how[0] == 'x';
       MgrSlot& m = ext ? xmgr : bmgr;
       if (!m.base || t.size() < 4) return;
       std::string name = t[3] == "EMPTY" ? "" : t[3];
-      c.tz = m.base->createForZoneName(name.c_str());
+      if (name.size() > sizeof(nameBuf) - 1) name.resize(sizeof(nameBuf) - 1);
+      if (kvStr(t, "buf", "reuse") == "heap") {
+        char* h = (char*)malloc(name.size() + 1);
+        memcpy(h, name.c_str(), name.size() + 1);
+        c.tz = m.base->createForZoneName(h);
+        memset(h, '#', name.size());
+        free(h);
+      } else {
+        memcpy(nameBuf, name.c_str(), name.size() + 1);
+        c.tz = m.base->createForZoneName(nameBuf);
+      }
       cov.count("probe.create_by_name");
+      const void* named = nullptr;
+      for (size_t i = 0; i < m.registry.size(); i++) {
+        if (name == zoneName(ext ? K_XMGR : K_BMGR, m.registry[i])) { named = m.registry[i]; break; }
+      }
       if (c.tz.isError()) { c.d.kind = K_ERROR; cov.count("probe.create_by_name_absent"); }
       else {
-        const void* zi = m.findById(c.tz.getZoneId());
+        const void* zi = named ? named : m.findById(c.tz.getZoneId());
         if (!zi) return;
-        c.d.kind = ext ? K_XMGR : K_BMGR; c.d.zi = zi; c.d.zoneId = c.tz.getZoneId();
+        if (named && c.tz.getZoneId() != zoneIdOf(ext, named)) cov.count("probe.create_by_name_other_zone");
+        c.d.kind = ext ? K_XMGR : K_BMGR; c.d.zi = zi; c.d.zoneId = zoneIdOf(ext, zi);
+        c.d.zone = -1;
+        int full = ext ? zonedbx::kZoneRegistrySize : zonedb::kZoneRegistrySize;
+        for (int i = 0; i < full; i++) if (shippedZone(ext, i) == zi) { c.d.zone = i; break; }
       }
     } else if (how == "manual") {
       long sm = tokInt(t, 3, 0), dm = tokInt(t, 4, 0);
@@ -1027,9 +1051,12 @@ void TzDevice::exec(const std::vector<std::string>& t, int opIndex, Verdict& v, 
         acetime_t e = (acetime_t)kvInt(t, "e", 0);
         if (tz.getType() != TimeZone::kTypeManual || tz.getStdOffset().toMinutes() != f.d.stdMin
             || tz.getDstOffset().toMinutes() != f.d.dstMin) {
-          v.fail("c16-restore-manual", fmt("manual zone std=%d dst=%d restored as type %d std=%d dst=%d", f.d.stdMin,
-              f.d.dstMin, (int)tz.getType(), tz.getStdOffset().toMinutes(), tz.getDstOffset().toMinutes()), opIndex);
-        } else if (tz.getUtcOffset(e).toMinutes() != f.d.stdMin + f.d.dstMin) {
+          // (the offsets of a zone that is not manual are not read back: they are whatever the union holds)
+          const bool man = tz.getType() == TimeZone::kTypeManual;
+          v.fail("c16-restore-manual", fmt("manual zone std=%d dst=%d restored as type %d%s", f.d.stdMin,
+              f.d.dstMin, (int)tz.getType(), man ? fmt(" std=%d dst=%d", tz.getStdOffset().toMinutes(),
+              tz.getDstOffset().toMinutes()).c_str() : " (not a manual zone)"), opIndex);
+        } else if (sumFits(f.d.stdMin, f.d.dstMin) && tz.getUtcOffset(e).toMinutes() != f.d.stdMin + f.d.dstMin) {
           v.fail("c16-manual-offset", fmt("manual zone std=%d dst=%d has UTC offset %d", f.d.stdMin, f.d.dstMin,
               tz.getUtcOffset(e).toMinutes()), opIndex);
         }
@@ -1056,7 +1083,8 @@ void TzDevice::exec(const std::vector<std::string>& t, int opIndex, Verdict& v, 
       const Client& c = clients[i];
       if (c.d.kind != K_MANUAL) continue;
       int got = c.tz.getUtcOffset((acetime_t)(opIndex * 7919)).toMinutes();
-      if (got != c.d.stdMin + c.d.dstMin || c.tz.getStdOffset().toMinutes() != c.d.stdMin
+      // (a sum that does not fit the int16 minutes of a TimeOffset has no representable "standard plus DST")
+      if ((sumFits(c.d.stdMin, c.d.dstMin) && got != c.d.stdMin + c.d.dstMin) || c.tz.getStdOffset().toMinutes() != c.d.stdMin
           || c.tz.getDstOffset().toMinutes() != c.d.dstMin || c.tz.getDeltaOffset(0).toMinutes() != c.d.dstMin) {
         v.fail("c16-manual-offset", fmt("manual client %d std=%d dst=%d: getUtcOffset=%d getStdOffset=%d getDstOffset=%d",
             i, c.d.stdMin, c.d.dstMin, got, c.tz.getStdOffset().toMinutes(), c.tz.getDstOffset().toMinutes()), opIndex);
@@ -1401,9 +1429,17 @@ struct Gen {
   }
 
   void makeClient(int slot) {
-    if (mix.extremes && rng.chance(1, 7)) {
+    if (rng.chance(1, mix.extremes ? 7 : 9)) {
       bool ext = rng.chance(1, 2);
-      line(fmt("TZ %d %s %s", slot, ext ? "xname" : "bname", drawName(ext).c_str()));
+      std::string nm;
+      if (mix.extremes && rng.chance(1, 2)) nm = drawName(ext);   // absent / misspelt names: device profile only
+      else {
+        // a name of one of this run's zones (they are in the run's sub-registries), so that consecutive lookups
+        // through the one line buffer concern different zones of the same manager
+        const std::vector<int>& zs = ext ? xz : bz;
+        nm = zoneName(ext ? K_XMGR : K_BMGR, shippedZone(ext, zs[rng.below(zs.size())]));
+      }
+      line(fmt("TZ %d %s %s buf=%s", slot, ext ? "xname" : "bname", nm.c_str(), rng.chance(2, 3) ? "reuse" : "heap"));
       ckind[slot] = ext ? K_XMGR : K_BMGR; czone[slot] = -1;
       return;
     }
@@ -1418,6 +1454,14 @@ struct Gen {
           int k = rng.chance(1, 3) ? lastStd + lastDst : (int)rng.range(1, 90);
           sm = lastStd + lastDst - k; dm = k;
           if (rng.chance(1, 5)) { sm = (int)rng.range(1, 600); dm = -sm; }
+        }
+        if (rng.chance(1, 9)) {
+          // the boundaries of the stored int16 fields (-32768 is also TimeOffset's own error value: as a component
+          // of a manual zone it is data like any other and must come back); sums stay inside int16
+          static const int bnd[][2] = {{-32768, 0}, {0, -32768}, {-32768, 60}, {-32767, 0}, {32767, 0}, {0, 32767},
+              {32767, -60}, {-32768, 32767}, {32767, -32768}, {-16384, -16384}, {16383, 16384}, {256, -256}, {-1, -32767}};
+          int k = (int)rng.below(13);
+          sm = bnd[k][0]; dm = bnd[k][1];
         }
         haveManual = true; lastStd = sm; lastDst = dm;
         line(fmt("TZ %d manual %d %d", slot, sm, dm)); ckind[slot] = K_MANUAL;
@@ -1662,7 +1706,9 @@ struct Gen {
         line(fmt("REBOOT poison=%u", (unsigned)drawPoison()));
         rebootAndRebuild(-1);
       } else if ((w -= mix.wReboot) < mix.wManset) {
-        line(fmt("MANSET %d %s %d", liveClient(), rng.chance(1, 2) ? "std" : "dst", (int)rng.range(-960, 960)));
+        static const int mb[] = {-32768, -32767, 32767, 16384, -16384};
+        line(fmt("MANSET %d %s %d", liveClient(), rng.chance(1, 2) ? "std" : "dst",
+            rng.chance(1, 10) ? mb[rng.below(5)] : (int)rng.range(-960, 960)));
       } else {
         unsigned r = (unsigned)rng.below(100);
         if (rng.chance(1, 8)) line(drawParse());
